@@ -1,5 +1,7 @@
 import Mieru.Proofs.C08
+import Mieru.Proofs.C08Handshake
 import Mieru.Proofs.C09
+import Mieru.Proofs.C09LE
 import Mieru.Gen.Consts
 /-!
 # C08 — clocks within one minute agree on keys; stale segments are refused; cached key
@@ -9,6 +11,21 @@ Models: `Mieru.Model.Time` (Go's `Time.Round` on integer nanoseconds, `cipherKey
 `saltFromTime`, the minute counter, `mathext.Mid/WithinRange`), `Mieru.Model.KeyCache`
 (`getCachedCiphers`, `StatelessDecryptor.tryDecryptAt` over an abstract `derive : slot → keys`).
 Instants `t` and skews `d` are integer nanoseconds; 60 s = 60000000000 ns.
+
+`Mieru.Model.Handshake` composes these with the documented framing of `Mieru.Spec` into the Go receiver's
+first-contact path (`recvFirstTcp`, `recvFirstUdp`) with its three instants: key instant `tk`
+(`Mux.newUnderlay`), stamp instant `ts` (`Marshal`), receiver instant `tr`.
+
+SCOPE of "a segment … whose key was derived for an instant four or more minutes away is never accepted":
+the clause is about key SELECTION for a connection that has no key yet — the first segment of a TCP
+direction client→server, a UDP datagram that belongs to no existing session (`recvFirstTcp`,
+`recvFirstUdp`, `stale_key_not_parsed`, `recv_first_sound`).  An established TCP connection and an
+existing UDP session keep the key they settled on for life and never consult the clock for keys again
+(`established_session_ignores_candidates`, `established_session_accepts_original_key`; the harness shows
+the real stateful cipher accepting its original key at an instant hours later): from then on only the
+±1-minute stamp guards staleness.  The server→client direction derives no key at all (it answers under
+the key the client's first segment opened with), so the three-candidate shape is client→server only.
+Bounds: keys agree up to 120 s between key instant and receiver clock (sharp); stamps up to 60 s (sharp).
 
 Domain notes (stated, not hidden):
 * The slot theorems hold for ALL integer instants (also before 1970).
@@ -21,7 +38,7 @@ Domain notes (stated, not hidden):
   `minuteU32_eq` says the counter equals it for instants before that.
 -/
 namespace Mieru.C08
-open Mieru.Time Mieru.KeyCache
+open Mieru.Time Mieru.KeyCache Mieru.Handshake
 
 /-- Tie (T): the slot length the model uses is the one compiled from the current source
     (`lean/Mieru/Gen/Consts.lean` is regenerated from the repository on every run).  The cache
@@ -141,14 +158,137 @@ theorem stale_key_never_tried (s : State (List Int)) (hs : Mieru.Proofs.C08.Stat
   simp only [slotKeys, keyRefreshSec, List.mem_cons, List.not_mem_nil, or_false]
   omega
 
-/-- **The handshake's first segment succeeds under skew.**  A sender at instant `t` seals the
-    first segment of a TCP direction with the key of its current slot and stamps its minute; a
-    receiver whose clock shows `t + d`, |d| ≤ 60 s, tries the keys of its three slots
-    (`saltFromTime` order) and checks the stamp against its own minute.  Then the receiver parses
-    exactly that segment and accepts its timestamp.  `keyOf` maps a slot to its key
-    (PBKDF2 of the slot's salt); the AEAD laws, the low-entropy law (types 10/11 only) and
-    "a different key does not authenticate the sender's first ciphertext" are hypotheses. -/
-theorem handshake_succeeds_under_skew (A : Spec.AeadFns) (hA : Spec.AeadLaws A) (hle : Spec.LELaw)
+/-! ## The true key bound (audit W1)
+
+The three-slot window tolerates 120 s of skew between the instant a key was derived for and the
+receiver's clock, not just 60 s: 60 s is the sharp bound for the MINUTE STAMP only. -/
+
+/-- Key instant and receiver instant at most 120 s apart: the key's slot is one of the three
+    slots the receiver tries. -/
+theorem slot_agreement_120 (t d : Int) (h1 : -120000000000 ≤ d) (h2 : d ≤ 120000000000) :
+    epoch t ∈ saltTimes (t + d) := by
+  have := Mieru.Proofs.C08.slot_agreement_120 t d h1 h2
+  rw [Mieru.Proofs.C08.mem_saltTimes]
+  omega
+
+/-- 120 s is sharp for keys: at 120 s + 1 ns the slots can be two apart. -/
+theorem slot_agreement_120_sharp :
+    ∃ t d : Int, d = 120000000001 ∧ epoch t ∉ saltTimes (t + d) ∧ epoch (t + d) ∉ saltTimes t :=
+  ⟨1700000099999999999, 120000000001, rfl, by decide, by decide⟩
+
+/-- 60 s is sharp for the minute stamp: at 60 s + 1 ns a stamp can be two minutes away. -/
+theorem minute_bound_60_sharp :
+    ∃ t d : Int, 0 ≤ t ∧ d = 60000000001 ∧ tsAccept (minute (t + d)) (minute t) = false :=
+  ⟨59999999999, 60000000001, by decide, rfl, by decide⟩
+
+/-! ## The timestamp theorems on the `uint32` counter the code compares (audit W5)
+
+`Unmarshal` compares `int64(uint32(time.Now().Unix() / 60))` with `int64(stamp)`; the theorems
+above are about `minute : Int → Int`.  For instants of the uint32 era (1970 … year 10136) the two
+coincide (`minuteU32_eq`), so: -/
+
+theorem timestamp_accepted_under_skew_u32 (ts tr : Int) (hts : 0 ≤ ts) (htr : 0 ≤ tr)
+    (hws : ts < 257698037760000000000) (hwr : tr < 257698037760000000000)
+    (h1 : -60000000000 ≤ tr - ts) (h2 : tr - ts ≤ 60000000000) :
+    tsAccept (minuteU32 tr : Int) (minuteU32 ts : Int) = true :=
+  Mieru.Proofs.C08.stamp_accept_u32 ts tr hts htr hws hwr h1 h2
+
+theorem timestamp_rejected_2min_u32 (ts tr : Int) (hts : 0 ≤ ts) (htr : 0 ≤ tr)
+    (hws : ts < 257698037760000000000) (hwr : tr < 257698037760000000000)
+    (h : tr - ts ≤ -120000000000 ∨ 120000000000 ≤ tr - ts) :
+    tsAccept (minuteU32 tr : Int) (minuteU32 ts : Int) = false :=
+  Mieru.Proofs.C08.stamp_reject_u32 ts tr hts htr hws hwr h
+
+/-! ## The handshake with its three instants (audit W1, W3)
+
+`Mieru.Model.Handshake`: the client fixes its key at `tk` (`Mux.newUnderlay`, before dialling), stamps
+the segment at `ts` (`Marshal`), the server reads it at `tr`.  The low-entropy law is no longer a
+hypothesis (`Mieru.Spec.leLaw`, from C17's theorems).  The only cryptographic hypothesis left is the
+key-commitment idealisation `hcommit`: another candidate key does not authenticate what the sender
+sealed under its first nonce. -/
+
+/-- Key part: |tr − tk| ≤ 120 s ⇒ the keyless receiver at `tr` finds the sender's key among its three
+    candidates and parses exactly the sender's first segment. -/
+theorem first_segment_key_found (A : Spec.AeadFns) (hA : Spec.AeadLaws A) (keyOf : Int → Bytes)
+    (tk tr : Int) (hk1 : -120000000000 ≤ tr - tk) (hk2 : tr - tk ≤ 120000000000)
+    (n0 : Bytes) (hn : n0.length = 24)
+    (hcommit : ∀ e ∈ saltTimes tr, keyOf e ≠ keyOf (epoch tk) →
+      ∀ p, A.openF (keyOf e) n0 (A.sealF (keyOf (epoch tk)) n0 p) = none)
+    (s : Spec.Segment) (hw : s.wf) (lePad : Bool) (bytes rest : Bytes) (t' : Spec.Tx)
+    (hs : sendFirstTcp A keyOf tk n0 s lePad = some (bytes, t')) :
+    Spec.parseOne A { Spec.Rx.new (candKeys keyOf tr) with buf := bytes ++ rest }
+      = .ok (keyOf (epoch tk)) s.md s.payload bytes.length t'.nonce := by
+  refine Spec.tcp_parse_one A hA Spec.leLaw ⟨keyOf (epoch tk), n0, false⟩ t' _ ?_ s hw lePad bytes rest hs rfl
+  left
+  have hmem : epoch tk ∈ saltTimes tr := by
+    have := slot_agreement_120 tk (tr - tk) hk1 hk2
+    have e : tk + (tr - tk) = tr := by omega
+    rwa [e] at this
+  refine ⟨rfl, rfl, hn, List.mem_map_of_mem hmem, ?_⟩
+  intro k hk hne p
+  simp only [Spec.Rx.new, candKeys, List.mem_map] at hk
+  obtain ⟨e, he, rfl⟩ := hk
+  exact hcommit e he hne p
+
+/-- **The handshake's first segment succeeds under skew — three instants.**  Key derived at `tk`,
+    segment stamped at `ts`, receiver clock `tr`; |tr − tk| ≤ 120 s and |tr − ts| ≤ 60 s (instants of
+    the uint32 era).  The Go receiver (`recvFirstTcp`: three slot keys of `tr`, documented framing,
+    `Unmarshal`'s timestamp rule at `tr`) accepts exactly the sender's segment under the sender's key.
+    This covers key derivation before the dial plus transit time: a client whose clock is within
+    60 s of the server's may take up to a minute between `newUnderlay` and the server's read. -/
+theorem handshake_succeeds_three_instants (A : Spec.AeadFns) (hA : Spec.AeadLaws A) (keyOf : Int → Bytes)
+    (tk ts tr : Int) (hts : 0 ≤ ts) (htr : 0 ≤ tr)
+    (hws : ts < 257698037760000000000) (hwr : tr < 257698037760000000000)
+    (hk1 : -120000000000 ≤ tr - tk) (hk2 : tr - tk ≤ 120000000000)
+    (hs1 : -60000000000 ≤ tr - ts) (hs2 : tr - ts ≤ 60000000000)
+    (n0 : Bytes) (hn : n0.length = 24)
+    (hcommit : ∀ e ∈ saltTimes tr, keyOf e ≠ keyOf (epoch tk) →
+      ∀ p, A.openF (keyOf e) n0 (A.sealF (keyOf (epoch tk)) n0 p) = none)
+    (s : Spec.Segment) (hw : s.wf) (hstamp : s.md.timestamp = minuteU32 ts) (lePad : Bool)
+    (bytes rest : Bytes) (t' : Spec.Tx)
+    (hs : sendFirstTcp A keyOf tk n0 s lePad = some (bytes, t')) :
+    recvFirstTcp A keyOf tr (bytes ++ rest)
+      = some ⟨keyOf (epoch tk), s.md, s.payload, bytes.length, t'.nonce⟩ := by
+  have hp := first_segment_key_found A hA keyOf tk tr hk1 hk2 n0 hn hcommit s hw lePad bytes rest t' hs
+  have hst : stampOk tr s.md = true := by
+    simp only [stampOk, hstamp]
+    exact timestamp_accepted_under_skew_u32 ts tr hts htr hws hwr hs1 hs2
+  simp only [recvFirstTcp, hp, hst, if_true]
+
+/-- The same for the first datagram of a UDP session (`recvFirstUdp`: `udpOpenCands` over the three
+    slot keys of `tr`, then the timestamp rule). -/
+theorem handshake_first_datagram_three_instants (A : Spec.AeadFns) (hA : Spec.AeadLaws A) (keyOf : Int → Bytes)
+    (tk ts tr : Int) (hts : 0 ≤ ts) (htr : 0 ≤ tr)
+    (hws : ts < 257698037760000000000) (hwr : tr < 257698037760000000000)
+    (hk1 : -120000000000 ≤ tr - tk) (hk2 : tr - tk ≤ 120000000000)
+    (hs1 : -60000000000 ≤ tr - ts) (hs2 : tr - ts ≤ 60000000000)
+    (nonce : Bytes) (hn : nonce.length = 24)
+    (s : Spec.Segment) (hw : s.wf) (hstamp : s.md.timestamp = minuteU32 ts) (lePad : Bool)
+    (hcommit : ∀ e ∈ saltTimes tr, keyOf e ≠ keyOf (epoch tk) →
+      A.openF (keyOf e) nonce (A.sealF (keyOf (epoch tk)) nonce s.md.encode) = none)
+    (d : Bytes) (hs : sendFirstUdp A keyOf tk nonce s lePad = some d) :
+    recvFirstUdp A keyOf tr d = some (keyOf (epoch tk), s.md, s.payload) := by
+  have hmem : epoch tk ∈ saltTimes tr := by
+    have := slot_agreement_120 tk (tr - tk) hk1 hk2
+    have e : tk + (tr - tk) = tr := by omega
+    rwa [e] at this
+  have hf := Spec.Srv.udpOpenCands_finds A hA Spec.leLaw (keyOf (epoch tk)) nonce hn s hw lePad d hs
+    (candKeys keyOf tr) (List.mem_map_of_mem hmem) (by
+      intro k hk hne
+      simp only [candKeys, List.mem_map] at hk
+      obtain ⟨e, he, rfl⟩ := hk
+      exact hcommit e he hne)
+  have hst : stampOk tr s.md = true := by
+    simp only [stampOk, hstamp]
+    exact timestamp_accepted_under_skew_u32 ts tr hts htr hws hwr hs1 hs2
+  simp only [recvFirstUdp, hf, hst, if_true]
+
+/-- **The handshake's first segment succeeds under skew** (round-1 statement, now a corollary of
+    the key part with `tk = ts = t`, `tr = t + d`, and without the low-entropy hypothesis).  A
+    sender at instant `t` seals the first segment of a TCP direction with the key of its current
+    slot and stamps its minute; a receiver whose clock shows `t + d`, |d| ≤ 60 s, tries the keys of
+    its three slots and checks the stamp against its own minute. -/
+theorem handshake_succeeds_under_skew (A : Spec.AeadFns) (hA : Spec.AeadLaws A)
     (keyOf : Int → Bytes) (t d : Int) (ht : 0 ≤ t) (htd : 0 ≤ t + d)
     (h1 : -60000000000 ≤ d) (h2 : d ≤ 60000000000) (n0 : Bytes) (hn : n0.length = 24)
     (hcommit : ∀ e ∈ saltTimes (t + d), keyOf e ≠ keyOf (epoch t) →
@@ -160,15 +300,137 @@ theorem handshake_succeeds_under_skew (A : Spec.AeadFns) (hA : Spec.AeadLaws A) 
       = .ok (keyOf (epoch t)) s.md s.payload bytes.length t'.nonce ∧
     tsAccept (minute (t + d)) s.md.timestamp = true := by
   constructor
-  · refine Spec.tcp_parse_one A hA hle ⟨keyOf (epoch t), n0, false⟩ t' _ ?_ s hw lePad bytes rest hs rfl
-    left
-    refine ⟨rfl, rfl, hn, List.mem_map_of_mem (slot_agreement_keys t d h1 h2), ?_⟩
-    intro k hk hne p
-    simp only [Spec.Rx.new, List.mem_map] at hk
-    obtain ⟨e, he, rfl⟩ := hk
-    exact hcommit e he hne p
+  · exact first_segment_key_found A hA keyOf t (t + d) (by omega) (by omega) n0 hn hcommit s hw lePad bytes rest t' hs
   · rw [hts]
     exact timestamp_accepted_under_skew t d ht htd h1 h2
+
+/-! ## "Never accepted", at the parse level (audit W2)
+
+`slot_reject_4min` / `stale_key_never_tried` say that the stale key's SLOT is not among the three the
+receiver tries.  That the segment is then REFUSED needs two idealisations of PBKDF2 / the AEAD, stated
+explicitly and only for the four slots involved: `hinj` — the stale slot's key is not, by collision,
+the key of one of the receiver's slots; `hcommit` — a different key does not authenticate what the
+sender sealed. -/
+
+/-- A first segment sealed with a key derived for an instant four or more minutes from the
+    receiver's clock is refused with the authentication error — whatever its stamp. -/
+theorem stale_key_not_parsed (A : Spec.AeadFns) (hA : Spec.AeadLaws A) (keyOf : Int → Bytes)
+    (tk tr : Int) (h : tr - tk ≤ -240000000000 ∨ 240000000000 ≤ tr - tk)
+    (hinj : ∀ e ∈ saltTimes tr, keyOf e = keyOf (epoch tk) → e = epoch tk)
+    (n0 : Bytes) (hn : n0.length = 24)
+    (hcommit : ∀ e ∈ saltTimes tr, keyOf e ≠ keyOf (epoch tk) →
+      ∀ p, A.openF (keyOf e) n0 (A.sealF (keyOf (epoch tk)) n0 p) = none)
+    (s : Spec.Segment) (lePad : Bool) (bytes rest : Bytes) (t' : Spec.Tx)
+    (hs : sendFirstTcp A keyOf tk n0 s lePad = some (bytes, t')) :
+    Spec.parseOne A { Spec.Rx.new (candKeys keyOf tr) with buf := bytes ++ rest } = .bad .auth ∧
+    recvFirstTcp A keyOf tr (bytes ++ rest) = none := by
+  obtain ⟨tl, rfl⟩ := Mieru.Proofs.C08.tcpSeal_first_shape A _ n0 s lePad bytes t' hs
+  have hm : (A.sealF (keyOf (epoch tk)) n0 s.md.encode).length = 48 := by rw [hA.seal_len, Spec.meta_len]
+  have hnot : epoch tk ∉ saltTimes tr := by
+    have := slot_reject_4min tk (tr - tk) h
+    have e : tk + (tr - tk) = tr := by omega
+    rwa [e] at this
+  have hp : Spec.parseOne A { Spec.Rx.new (candKeys keyOf tr) with
+      buf := n0 ++ (A.sealF (keyOf (epoch tk)) n0 s.md.encode ++ tl) ++ rest } = .bad .auth := by
+    have e : n0 ++ (A.sealF (keyOf (epoch tk)) n0 s.md.encode ++ tl) ++ rest
+        = n0 ++ (A.sealF (keyOf (epoch tk)) n0 s.md.encode ++ (tl ++ rest)) := by simp
+    rw [e]
+    apply Mieru.Proofs.C08.parseOne_no_key A _ n0 _ _ hn hm
+    intro k hk
+    simp only [candKeys, List.mem_map] at hk
+    obtain ⟨e', he', rfl⟩ := hk
+    have hne : keyOf e' ≠ keyOf (epoch tk) := fun heq => hnot (hinj e' he' heq ▸ he')
+    exact hcommit e' he' hne _
+  exact ⟨hp, by simp only [recvFirstTcp, hp]⟩
+
+/-- A first segment whose key IS in the window but whose stamp is two or more minutes from the
+    receiver's counter is not accepted (any stamp value, including 0 and 2^32 − 1). -/
+theorem stale_stamp_not_accepted (A : Spec.AeadFns) (hA : Spec.AeadLaws A) (keyOf : Int → Bytes)
+    (tk tr : Int) (hk1 : -120000000000 ≤ tr - tk) (hk2 : tr - tk ≤ 120000000000)
+    (n0 : Bytes) (hn : n0.length = 24)
+    (hcommit : ∀ e ∈ saltTimes tr, keyOf e ≠ keyOf (epoch tk) →
+      ∀ p, A.openF (keyOf e) n0 (A.sealF (keyOf (epoch tk)) n0 p) = none)
+    (s : Spec.Segment) (hw : s.wf)
+    (hstale : (minuteU32 tr : Int) - (s.md.timestamp : Int) ≥ 2 ∨ (s.md.timestamp : Int) - (minuteU32 tr : Int) ≥ 2)
+    (lePad : Bool) (bytes rest : Bytes) (t' : Spec.Tx)
+    (hs : sendFirstTcp A keyOf tk n0 s lePad = some (bytes, t')) :
+    recvFirstTcp A keyOf tr (bytes ++ rest) = none := by
+  have hp := first_segment_key_found A hA keyOf tk tr hk1 hk2 n0 hn hcommit s hw lePad bytes rest t' hs
+  have hst : stampOk tr s.md = false := minute_reject_2 _ _ hstale
+  simp only [recvFirstTcp, hp, hst]
+  rfl
+
+/-- …in particular a segment stamped at an instant two minutes or more from the receiver's clock. -/
+theorem stale_stamp_not_accepted_instants (A : Spec.AeadFns) (hA : Spec.AeadLaws A) (keyOf : Int → Bytes)
+    (tk ts tr : Int) (hts : 0 ≤ ts) (htr : 0 ≤ tr)
+    (hws : ts < 257698037760000000000) (hwr : tr < 257698037760000000000)
+    (hk1 : -120000000000 ≤ tr - tk) (hk2 : tr - tk ≤ 120000000000)
+    (hfar : tr - ts ≤ -120000000000 ∨ 120000000000 ≤ tr - ts)
+    (n0 : Bytes) (hn : n0.length = 24)
+    (hcommit : ∀ e ∈ saltTimes tr, keyOf e ≠ keyOf (epoch tk) →
+      ∀ p, A.openF (keyOf e) n0 (A.sealF (keyOf (epoch tk)) n0 p) = none)
+    (s : Spec.Segment) (hw : s.wf) (hstamp : s.md.timestamp = minuteU32 ts)
+    (lePad : Bool) (bytes rest : Bytes) (t' : Spec.Tx)
+    (hs : sendFirstTcp A keyOf tk n0 s lePad = some (bytes, t')) :
+    recvFirstTcp A keyOf tr (bytes ++ rest) = none := by
+  have hp := first_segment_key_found A hA keyOf tk tr hk1 hk2 n0 hn hcommit s hw lePad bytes rest t' hs
+  have hst : stampOk tr s.md = false := by
+    simp only [stampOk, hstamp]
+    exact timestamp_rejected_2min_u32 ts tr hts htr hws hwr hfar
+  simp only [recvFirstTcp, hp, hst]
+  rfl
+
+/-- **Soundness of the first-contact receiver, for ANY input bytes** (no cryptographic hypothesis):
+    whatever `recvFirstTcp` accepts at `tr` was opened by the key of one of the three slots of `tr`
+    and carries a stamp within one minute of the receiver's counter. -/
+theorem recv_first_sound (A : Spec.AeadFns) (keyOf : Int → Bytes) (tr : Int) (buf : Bytes)
+    (a : Accepted) (h : recvFirstTcp A keyOf tr buf = some a) :
+    (∃ e ∈ saltTimes tr, a.key = keyOf e) ∧
+    (minuteU32 tr : Int) - (a.md.timestamp : Int) ≤ 1 ∧ (a.md.timestamp : Int) - (minuteU32 tr : Int) ≤ 1 := by
+  simp only [recvFirstTcp] at h
+  split at h
+  · rename_i k md p n nn hp
+    split at h
+    · rename_i hst
+      simp only [Option.some.injEq] at h
+      subst h
+      have hk := Mieru.Proofs.C08.parseOne_ok_key A _ rfl k md p n nn hp
+      simp only [Spec.Rx.new, candKeys, List.mem_map] at hk
+      obtain ⟨e, he, rfl⟩ := hk
+      refine ⟨⟨e, he, rfl⟩, ?_⟩
+      have := (withinRange_iff _ _ 1 (by omega)).mp hst
+      show (minuteU32 tr : Int) - (md.timestamp : Int) ≤ 1 ∧ (md.timestamp : Int) - (minuteU32 tr : Int) ≤ 1
+      omega
+    · cases h
+  · cases h
+
+/-! ## Scope of the four-minute clause: key SELECTION for a connection without a key
+
+The receiver consults its clock for keys only while `Rx.key = none` (first TCP segment of a
+direction, UDP datagram of no existing session).  Afterwards the key is fixed: -/
+
+/-- an established direction never looks at the candidate keys again (no clock enters) -/
+theorem established_session_ignores_candidates (A : Spec.AeadFns) (r : Spec.Rx) (k : Bytes)
+    (hk : r.key = some k) (cands' : List Bytes) :
+    Spec.parseOne A { r with cands := cands' } = Spec.parseOne A r := by
+  simp only [Spec.parseOne, hk]
+
+/-- …and keeps accepting segments sealed under its original key — ANY key, also one derived for an
+    instant hours before `tr` — as long as the stamp is fresh.  (Documented behaviour of TCP
+    connections and UDP sessions; the four-minute clause of C08 is about first contact.) -/
+theorem established_session_accepts_original_key (A : Spec.AeadFns) (hA : Spec.AeadLaws A)
+    (t t' : Spec.Tx) (r : Spec.Rx) (hst : t.started = true) (hk : r.key = some t.key) (hnr : r.nonce = t.nonce)
+    (ts tr : Int) (hts : 0 ≤ ts) (htr : 0 ≤ tr)
+    (hws : ts < 257698037760000000000) (hwr : tr < 257698037760000000000)
+    (hs1 : -60000000000 ≤ tr - ts) (hs2 : tr - ts ≤ 60000000000)
+    (s : Spec.Segment) (hw : s.wf) (hstamp : s.md.timestamp = minuteU32 ts) (lePad : Bool)
+    (bytes rest : Bytes) (hs : Spec.tcpSeal A t s lePad = some (bytes, t')) (hbuf : r.buf = bytes ++ rest) :
+    recvLaterTcp A r tr = some ⟨t.key, s.md, s.payload, bytes.length, t'.nonce⟩ := by
+  have hp := Spec.tcp_parse_one A hA Spec.leLaw t t' r (Or.inr ⟨hst, hk, hnr⟩) s hw lePad bytes rest hs hbuf
+  have hok : stampOk tr s.md = true := by
+    simp only [stampOk, hstamp]
+    exact timestamp_accepted_under_skew_u32 ts tr hts htr hws hwr hs1 hs2
+  simp only [recvLaterTcp, hp, hok, if_true]
 
 /-! ## Non-vacuity and regression examples -/
 
@@ -176,8 +438,13 @@ theorem handshake_succeeds_under_skew (A : Spec.AeadFns) (hA : Spec.AeadLaws A) 
 example : epoch 1700000099999999999 = 1700000040 ∧ epoch (1700000099999999999 + 60000000000) = 1700000160 := by decide
 example : epoch 1700000099999999999 ∈ saltTimes (1700000099999999999 + 60000000000) :=
   slot_agreement_keys _ _ (by decide) (by decide)
--- the bound 60 s is what the three-slot window gives in the worst phase: at 120 s + 1 ns it can fail
-example : epoch 1700000099999999999 ∉ saltTimes (1700000099999999999 + 180000000001) := by decide
+-- keys: the three-slot window tolerates up to 120 s (worst phase: 1 ns before a rounding tie) and fails at
+-- 120 s + 1 ns; 60 s is sharp for the minute stamp only (`slot_agreement_120_sharp`, `minute_bound_60_sharp`)
+example : epoch 1700000099999999999 ∈ saltTimes (1700000099999999999 + 120000000000) :=
+  slot_agreement_120 _ _ (by decide) (by decide)
+example : epoch 1700000099999999999 ∉ saltTimes (1700000099999999999 + 120000000001) := by decide
+example : tsAccept (minute (59999999999 + 60000000000)) (minute 59999999999) = true ∧
+    tsAccept (minute (59999999999 + 60000000001)) (minute 59999999999) = false := by decide
 -- minute counters: 59.999999999 s and +60 s straddle a tick
 example : minute 59999999999 = 0 ∧ minute (59999999999 + 60000000000) = 1 := by decide
 -- regression (fixed defect): on uint32 a stamp of 0 or 2^32−1 was accepted at any time …
@@ -190,5 +457,78 @@ example : Mieru.Proofs.C08.StateOk (fun e => e) (step cacheValidNs (fun e => e) 
 -- a history with a clock step backwards across a slot boundary
 example : (run cacheValidNs (fun e => e) State.empty [.lookup 61000000000 0, .tryDecrypt 59000000000 4999, .lookup 61000000001 0]).map
     (fun p => (p.2.epoch, p.2.keys)) = [(120, 120), (0, 0), (120, 120)] := by decide
+
+
+/-! ### The handshake theorems applied to a concrete instance (joint satisfiability of their hypotheses)
+
+Toy AEAD of `Mieru.Proofs.C09` (tag = first 16 bytes of key ‖ nonce), one-byte keys indexed by the slot
+number, the data segment of the C09 examples stamped at `ts`.  Key derived 1 ns before a rounding tie
+(`tk`), segment stamped 60 s later (`ts`), receiver 119 s after the key instant (`tr`): the key's slot is
+the receiver's PREVIOUS slot, the stamp is one minute behind the receiver's counter. -/
+
+/-- keys of the toy instance: one byte, the slot number modulo 256 -/
+def toyKeyOf (e : Int) : Bytes := [UInt8.ofNat (e / 120 % 256).toNat]
+
+theorem toy_wrong_key (a b : UInt8) (h : a ≠ b) (n p : Bytes) :
+    Spec.toyAead.openF [a] n (Spec.toyAead.sealF [b] n p) = none := by
+  have hl : (Spec.toyTag [b] n).length = 16 := Spec.toyTag_len _ _
+  have h1 : p.length + 16 - 16 = p.length := by omega
+  have hne : Spec.toyTag [b] n ≠ Spec.toyTag [a] n := by
+    intro he
+    have := congrArg List.head? he
+    simp [Spec.toyTag] at this
+    exact h this.symm
+  simp only [Spec.toyAead, List.length_append, hl, h1, List.drop_left' rfl, hne, and_false, if_false]
+
+def toyTk : Int := 1700000099999999999
+def toyTs : Int := 1700000159999999999
+def toyTr : Int := 1700000218999999999
+def toyN0 : Bytes := List.replicate 24 7
+def toySeg : Spec.Segment :=
+  ⟨.data ⟨6, 28333335, 7, 1, 0, 256, 0, 2, 5, 3⟩, [1, 2, 3, 4, 5], [9, 9], [8, 8, 8]⟩
+
+theorem toyAead_laws : Spec.AeadLaws Spec.toyAead where
+  seal_len k n p := by simp [Spec.toyAead, Spec.toyTag_len]
+  open_seal k n p := by
+    simp only [Spec.toyAead, List.length_append, Spec.toyTag_len]
+    have h1 : p.length + 16 - 16 = p.length := by omega
+    rw [h1, List.drop_left' rfl, List.take_left' rfl]
+    simp
+
+theorem toy_commit (tr tk : Int) (n0 : Bytes) : ∀ e ∈ saltTimes tr, toyKeyOf e ≠ toyKeyOf (epoch tk) →
+    ∀ p, Spec.toyAead.openF (toyKeyOf e) n0 (Spec.toyAead.sealF (toyKeyOf (epoch tk)) n0 p) = none := by
+  intro e _ hne p
+  exact toy_wrong_key _ _ (fun h => hne (by simp only [toyKeyOf, h])) n0 p
+
+-- the instance: epoch tk = 1700000040 is the receiver's previous slot (epoch tr = 1700000160), the
+-- stamp 28333335 = minute ts is one behind the receiver's 28333336
+example : epoch toyTk = 1700000040 ∧ saltTimes toyTr = [1700000040, 1700000160, 1700000280] ∧
+    minuteU32 toyTs = 28333335 ∧ minuteU32 toyTr = 28333336 := by decide
+
+example : ∃ bytes t', sendFirstTcp Spec.toyAead toyKeyOf toyTk toyN0 toySeg false = some (bytes, t') ∧
+    ∀ rest, recvFirstTcp Spec.toyAead toyKeyOf toyTr (bytes ++ rest)
+      = some ⟨toyKeyOf 1700000040, toySeg.md, toySeg.payload, bytes.length, t'.nonce⟩ := by
+  have hsome : (sendFirstTcp Spec.toyAead toyKeyOf toyTk toyN0 toySeg false).isSome = true := by decide
+  obtain ⟨⟨bytes, t'⟩, h⟩ := Option.isSome_iff_exists.mp hsome
+  refine ⟨bytes, t', h, fun rest => ?_⟩
+  exact handshake_succeeds_three_instants Spec.toyAead toyAead_laws toyKeyOf toyTk toyTs toyTr
+    (by decide) (by decide) (by decide) (by decide) (by decide) (by decide) (by decide) (by decide)
+    toyN0 (by decide) (toy_commit toyTr toyTk toyN0) toySeg
+    ⟨by decide, by decide, by decide, by decide, by rfl⟩ (by decide) false bytes rest t' h
+
+-- the same sender, a receiver 240 s after the key instant: refused with the authentication error
+example : ∃ bytes t', sendFirstTcp Spec.toyAead toyKeyOf toyTk toyN0 toySeg false = some (bytes, t') ∧
+    ∀ rest, recvFirstTcp Spec.toyAead toyKeyOf (toyTk + 240000000000) (bytes ++ rest) = none := by
+  have hsome : (sendFirstTcp Spec.toyAead toyKeyOf toyTk toyN0 toySeg false).isSome = true := by decide
+  obtain ⟨⟨bytes, t'⟩, h⟩ := Option.isSome_iff_exists.mp hsome
+  refine ⟨bytes, t', h, fun rest => ?_⟩
+  refine (stale_key_not_parsed Spec.toyAead toyAead_laws toyKeyOf toyTk (toyTk + 240000000000) (Or.inr (by decide))
+    ?_ toyN0 (by decide) (toy_commit _ toyTk toyN0) toySeg false bytes rest t' h).2
+  decide
+
+-- the whole composition also runs: the receiver model accepts what the sender model produced
+example : (sendFirstTcp Spec.toyAead toyKeyOf toyTk toyN0 toySeg false).map
+      (fun r => (recvFirstTcp Spec.toyAead toyKeyOf toyTr r.1).map (·.payload)) = some (some [1, 2, 3, 4, 5]) := by
+  decide
 
 end Mieru.C08
